@@ -277,6 +277,26 @@ def r20_4(ctx):
         if re_ and not (f.reachable_from(re_[1], avoid=stores) & set(f.return_blocks)):
             ok = True
     ctx.ob("R20.4", "stream:latch-set-on-error", ok, f.loc(), "when the deserialized item is an error, is_ending is set before it is yielded" if ok else "an error item can be yielded without latching is_ending: the stream reports further items after an error")
+    # every fallible step whose Result reaches the yielded item is latched on its error edge (a check added behind the
+    # deserialization - `x.map(|()| val)` returned as it is - yields its error with the stream still open)
+    sl = backward_slice(f, [0])[0]
+    srcs = []
+    for b, t in f.calls():
+        d = t.get("dest")
+        if not d or d[1] or d[0] not in sl or (des and t is des[0][1]):
+            continue
+        if callee_is(t, "map", "map_err", "and_then", "or_else", "branch", "from_residual", "is_err", "is_ok", "into"):
+            continue
+        ty = str(f.locals[d[0]].get("ty", "") if isinstance(f.locals[d[0]], dict) else f.locals[d[0]])
+        if "Result<" not in ty:
+            continue
+        srcs.append((b, t))
+    for k, (b, t) in enumerate(srcs):
+        re_ = result_edges(f, t["dest"][0])
+        good = bool(re_) and re_[1] is not None and not (f.reachable_from(re_[1], avoid=stores) & set(f.return_blocks))
+        ctx.ob("R20.4", f"stream:latch-set-on-error:{t['callee'].rsplit('::', 1)[-1]}#{k + 1}", good, f.loc(t.get("ln")),
+               "the Result of this step reaches the yielded item; its error edge sets is_ending before the item is yielded" if good else
+               "the Result of this step reaches the yielded item without a test whose error edge sets is_ending: the stream yields again after this error")
 
 
 def r20_5(ctx):
